@@ -72,7 +72,7 @@ var bitProbes = []int{0, 1, 2, 31, 32, 33, 62, 63, 64, 65, 66, 95, 96, 126, 127,
 // raw inputs for the decoders: what arrives from outside is not always the
 // output of the matching encoder.
 var rawJSON = []string{"null", "0", "-0", "12", "-12", `"12"`, " 12 ", "1e2", "12.0", "0x10", "12abc", "", "true", "[1]", "340282366920938463463374607431768211456", "-340282366920938463463374607431768211457", "18446744073709551616", "+5", "00012", "1_000"}
-var rawText = []string{"", "0", "-0", "+12", "12", "-12", "0b11", "0o17", "0x1F", "1_000", " 5", "5 ", "12abc", "null", "<nil>", "340282366920938463463374607431768211455", "-18446744073709551616", "9223372036854775808", "1e3", "--1"}
+var rawText = []string{"", "0", "-0", "+12", "12", "-12", "0b11", "0o17", "0x1F", "1_000", " 5", "5 ", "12abc", "null", "<nil>", "340282366920938463463374607431768211455", "-18446744073709551616", "9223372036854775808", "1e3", "--1", "0755", "08", "-017", "00", "007", "+0644", "0_7", "09223372036854775807", "0777777777777777777777", "01777777777777777777777", "0b", "0x", "-0x8000000000000000", "0X_1"}
 var rawGob = []string{"", "00", "01", "02", "03", "0201", "0301", "02ffffffffffffffff", "03ffffffffffffffffff", "020000000000000001", "04", "0401", "ff", "0200", "0300", "02" + strings.Repeat("ab", 40), "03" + strings.Repeat("01", 17), "020100000000000000000000000000000000"}
 
 var fixedPrimes = []string{"2", "3", "5", "7", "13", "101", "65537", "4294967291", "4294967311", "18446744073709551557", "18446744073709551629",
@@ -409,7 +409,20 @@ func scanText(v *big.Int, s *plan.BigStep) string {
 		}
 	}
 	t := fmt.Sprintf(base, v)
-	switch uint64(s.K>>3) % 6 {
+	switch uint64(s.K>>3) % 8 {
+	case 6:
+		// leading zeros: with %v the scanner infers the base from the prefix
+		if strings.HasPrefix(t, "-") {
+			return "-0" + t[1:]
+		}
+		return "0" + t
+	case 7:
+		a := new(big.Int).Abs(v)
+		sign := ""
+		if v.Sign() < 0 {
+			sign = "-"
+		}
+		return sign + []string{"0x%x", "0b%b", "0o%o", "0X%X"}[int(uint64(s.FK)%4)][:2] + fmt.Sprintf([]string{"%x", "%b", "%o", "%X"}[int(uint64(s.FK)%4)], a)
 	case 0:
 		return t
 	case 1:
@@ -592,7 +605,7 @@ var bigMisc = []string{"Lsh", "Rsh", "SetBit", "QuoRem", "DivMod", "Exp", "ExpSm
 var bigDecode = []string{"GobDecode", "UnmarshalJSON", "UnmarshalText", "RawUnmarshalJSON", "RawUnmarshalText", "RawGobDecode"}
 var bigStream = []string{"Fscan", "FormatState"}
 
-var setStrings = []string{"0", "-0", "+5", "12345678901234567890", "-340282366920938463463374607431768211456", "0x1f", "0b101", "0o17", "1_000", "ff", "zz", "", "-", "9223372036854775807", "9223372036854775808", "-9223372036854775808", "-9223372036854775809", "18446744073709551615", "18446744073709551616", " 1", "1 ", "1e3", "0X1F", "_1", "1__0"}
+var setStrings = []string{"0", "-0", "+5", "12345678901234567890", "-340282366920938463463374607431768211456", "0x1f", "0b101", "0o17", "1_000", "ff", "zz", "", "-", "9223372036854775807", "9223372036854775808", "-9223372036854775808", "-9223372036854775809", "18446744073709551615", "18446744073709551616", " 1", "1 ", "1e3", "0X1F", "_1", "1__0", "0755", "08", "-017", "00", "007", "0_7", "0777777777777777777777", "01777777777777777777777", "-0x8000000000000000", "0b", "0x"}
 
 // GenBig draws a run of the BigInt machine. mode: "" | "alias" | "faults".
 func GenBig(seed, run uint64, tier, mode string) *plan.Plan {
